@@ -235,7 +235,7 @@ func parse[D []byte | string](d D, op Payload) (Decimal, error) {
 
 func parseNumber[D []byte | string](d D, neg, sepallowed bool) (Decimal, error) {
 	var sig64 uint64
-	var nfrac int16
+	var nfrac int64
 	var trunc int8
 	caneof := false
 	cansep := false
@@ -292,7 +292,7 @@ func parseNumber[D []byte | string](d D, neg, sepallowed bool) (Decimal, error) 
 	}
 
 	sig := uint128{sig64, 0}
-	var exp int16
+	var exp int64
 	maxexp := false
 
 	for ; i < l; i++ {
@@ -304,12 +304,15 @@ func parseNumber[D []byte | string](d D, neg, sepallowed bool) (Decimal, error) 
 			sawdig = true
 
 			if sawexp {
-				if exp > exponentBias/10+1 {
+				// An exponent this large dwarfs the number of digits any
+				// input can hold, so the value is out of range whatever
+				// nfrac is, and exp is kept from overflowing.
+				if exp > 1<<55 {
 					maxexp = true
+				} else {
+					exp *= 10
+					exp += int64(c - '0')
 				}
-
-				exp *= 10
-				exp += int16(c - '0')
 			} else {
 				if sig[1] <= 0x18ff_ffff_ffff_ffff {
 					if sig[1] <= 0x027f_ffff_ffff_ffff && i < l-1 {
@@ -339,9 +342,7 @@ func parseNumber[D []byte | string](d D, neg, sepallowed bool) (Decimal, error) 
 					}
 
 					if !sawdot {
-						if exp < exponentBias+39 {
-							nfrac--
-						}
+						nfrac--
 					}
 				}
 			}
@@ -429,13 +430,13 @@ func parseNumber[D []byte | string](d D, neg, sepallowed bool) (Decimal, error) 
 		return zero(neg), nil
 	}
 
-	sig, exp = DefaultRoundingMode.reduce128(neg, sig, exp+exponentBias, trunc)
+	sig, exp16 := DefaultRoundingMode.reduce128(neg, sig, int16(exp+exponentBias), trunc)
 
-	if exp > maxBiasedExponent {
+	if exp16 > maxBiasedExponent {
 		return inf(neg), parseNumberRangeError{}
 	}
 
-	return compose(neg, sig, exp), nil
+	return compose(neg, sig, exp16), nil
 }
 
 type parseNumberRangeError struct{}
